@@ -539,7 +539,11 @@ Definition spec_anchor (a : option pval) : option text :=
 
 (* scheme://host[:port] the overrides ask for (declarative form of
    _partial_application_url; proved equal to [partial_host_url]) *)
-Definition default_port (scheme : text) : option text := lookup elided_ports scheme.
+(* what the property means by "default port" (RFC 7230 / 2818); the code's own tables are
+   regenerated facts and are proved equal to this one *)
+Definition rfc_default_ports : list (text * text) :=
+  [([104; 116; 116; 112; 115], [52; 52; 51]); ([104; 116; 116; 112], [56; 48])].
+Definition default_port (scheme : text) : option text := lookup rfc_default_ports scheme.
 Definition spec_authority (e : env) (scheme host port : option text) : text :=
   let eff_scheme := match scheme with Some s => s | None => e_scheme e end in
   let hostport := match host with
@@ -551,7 +555,7 @@ Definition spec_authority (e : env) (scheme host port : option text) : text :=
     match port with
     | Some p => p
     | None =>
-        match (match scheme with Some s => lookup implied_ports s | None => None end) with
+        match (match scheme with Some s => default_port s | None => None end) with
         | Some p => p
         | None => if has_colon hostport then after 58 hostport else e_server_port e
         end
